@@ -9,7 +9,9 @@ class JavaCompiler(BaseCompiler):
     ERROR_REGEX = re.compile(
         r'([a-zA-Z0-9\/_]+.java):(\d+:[ ]+error:[ ]+.*)(.*?(?=\n{1,}))')
 
-    CRASH_REGEX = re.compile(r'(java\.lang.*)\n(.*)')
+    # A crash prints an exception followed by its stack frames; an ordinary
+    # diagnostic may mention a java.lang name too.
+    CRASH_REGEX = re.compile(r'(java\.lang.*)\n(\s+at .*)')
 
     def __init__(self, input_name, filter_patterns=None):
         input_name = os.path.join(input_name, '*', '*.java')
